@@ -310,6 +310,42 @@ class Repo:
         fi = self._func(qualname)
         return self.flat(fi)
 
+    def scan_funcs(self) -> list[FuncInfo]:
+        """every function a whole-program rule must look at: all functions with newly extracted helpers
+        inlined, minus the helpers that were absorbed into all of their call sites"""
+        cached = self.__dict__.get("_scan_funcs")
+        if cached is not None:
+            return cached
+        from .known_funcs import KNOWN_FUNCS
+
+        flats = {q: self.flat(fi) for q, fi in self.funcs.items()}
+        events: dict[str, int] = {}
+        for nfi in flats.values():
+            for (_c, h) in getattr(nfi, "inlined", []):
+                events[h] = events.get(h, 0) + 1
+        absorbed = set()
+        for q, fi in self.funcs.items():
+            if q in KNOWN_FUNCS or q.split("#")[0] in KNOWN_FUNCS:
+                continue
+            sites = self.callsites(q)
+            if sites and events.get(fi.short, 0) >= len([1 for (caller, _c) in sites if caller.qualname != q]):
+                absorbed.add(q)
+        out = [nfi for q, nfi in flats.items() if q not in absorbed]
+        self.__dict__["_scan_funcs"] = out
+        self.__dict__["absorbed_helpers"] = sorted(absorbed)
+        return out
+
+    def callsites_flat(self, qualname: str) -> list[tuple[FuncInfo, ast.Call]]:
+        """call sites of a function over scan_funcs() (helpers inlined): (caller, call)"""
+        cache = self.__dict__.setdefault("_callsites_flat", {})
+        if not cache:
+            for fi in self.scan_funcs():
+                for c in self.calls_in(fi):
+                    for t in self.resolve_call(c, fi):
+                        cache.setdefault(t.qualname, []).append((fi, c))
+            cache["__done__"] = []
+        return cache.get(qualname, [])
+
     def _func(self, qualname: str) -> FuncInfo:
         fi = self.funcs.get(qualname)
         if fi is None:
@@ -941,6 +977,9 @@ class Repo:
                         and isinstance(n.value, ast.Name) and n.value.id == name and unparse(n.targets[0].value) == "self"]
                 if len(pubs) == 1:
                     return ast.copy_location(ast.Attribute(value=ast.Name(id="self", ctx=ast.Load()), attr=pubs[0].targets[0].attr, ctx=ast.Load()), pubs[0])
+        if len(vals) > 1 and all(not isinstance(v, (ast.AnnAssign, _ForElem)) for v in vals) and len({unparse(v) for v in vals}) == 1 \
+                and isinstance(vals[0], (ast.Attribute, ast.Name)):
+            return vals[0]  # re-bound to the same attribute chain every time
         if len(vals) == 1 and not isinstance(vals[0], ast.AnnAssign):
             return vals[0]
         if len(vals) == 1 and isinstance(vals[0], ast.AnnAssign):
